@@ -64,10 +64,11 @@ def staleness(spec, tables, prop, where):
 
     sstates = H.step_states(tables)
     fstates = H.file_states(tables)
-    active = specgen.active_steps(spec)
+    defs = specgen.active_step_defs(spec)
+    active = list(defs)
     labels = {}
     for name in active:
-        label, _ = specgen.step_label(spec["steps"][name])
+        label, _ = specgen.step_label(defs[name])
         labels[label] = name
     plan_labels = set()
     for p in specgen.active_plans(spec):
@@ -78,7 +79,7 @@ def staleness(spec, tables, prop, where):
             raise Violation(f"{prop}/undefined-step-still-active",
                             f"{where}: step {label!r} is attached but no current plan defines it")
     for name in active:
-        sd = spec["steps"][name]
+        sd = defs[name]
         label, _ = specgen.step_label(sd)
         if label not in sstates or sstates[label][1]:
             raise Violation(f"{prop}/defined-step-missing",
@@ -100,7 +101,7 @@ def staleness(spec, tables, prop, where):
                 raise Violation(f"{prop}/output-not-built",
                                 f"{where}: output {path} of succeeded {label!r} is "
                                 f"{FileState(fstates[path][0]).name}")
-            want = H.expected_content(spec, name, path, H.disk_sha)
+            want = H.expected_content(spec, name, path, H.disk_sha, sd=sd)
             have = H.disk_sha(path)
             if have is None:
                 raise Violation(f"{prop}/output-file-missing",
@@ -232,8 +233,8 @@ def _blocked_by_stale_dynamic_input(final):
 
     tables = final.result.tables
     spec = final.spec
-    by_label = {specgen.step_label(spec["steps"][n])[0]: spec["steps"][n]
-                for n in specgen.active_steps(spec)}
+    by_label = {specgen.step_label(sd)[0]: sd
+                for sd in specgen.active_step_defs(spec).values()}
     nodes = {n["i"]: n for n in tables["node"]}
     steps = {s["node"]: s for s in tables["step"]}
     files = {f["node"]: f for f in tables["file"]}
@@ -257,7 +258,7 @@ def _stale_claim_rejections(final):
     import re
 
     spec = final.spec
-    current = {specgen.step_label(spec["steps"][n])[0] for n in specgen.active_steps(spec)}
+    current = {specgen.step_label(sd)[0] for sd in specgen.active_step_defs(spec).values()}
     current |= {specgen.plan_label(p, spec["plans"][p]["workdir"])[0]
                 for p in specgen.active_plans(spec)}
     hits = []
@@ -281,9 +282,23 @@ def _diff(a, b):
 
 def subchecks(tier):
     big = tier == "thorough"
-    return [SubCheck("history_vs_scratch", check_history,
-                     strategy=lambda: specgen.histories(max_steps=6, min_builds=2, max_builds=4),
-                     examples=240_000 if big else 6_000)]
+    return [
+        SubCheck("history_vs_scratch", check_history,
+                 strategy=lambda: specgen.histories(max_steps=6, min_builds=2, max_builds=4),
+                 examples=160_000 if big else 3_600),
+        SubCheck("env_histories", check_history,
+                 strategy=lambda: specgen.histories(max_steps=3, min_builds=3, max_builds=4,
+                                                    focus="env"),
+                 examples=40_000 if big else 1_000),
+        SubCheck("glob_histories", check_history,
+                 strategy=lambda: specgen.histories(max_steps=3, min_builds=2, max_builds=4,
+                                                    focus="glob"),
+                 examples=40_000 if big else 1_000),
+        SubCheck("optional_histories", check_history,
+                 strategy=lambda: specgen.histories(max_steps=5, min_builds=2, max_builds=4,
+                                                    focus="optional"),
+                 examples=40_000 if big else 1_000),
+    ]
 
 
 MANIFEST = {
